@@ -1,7 +1,5 @@
-import Ntrip.Guards.Apps
 import Ntrip.Proofs.PipeTerm
 import Ntrip.Proofs.SegmentRefine
-import Ntrip.Generated.Skeletons
 /-!
 # C09 — the reader-to-sinks pipeline delivers the same messages under every schedule
 
@@ -86,17 +84,6 @@ theorem pipeline_delivers {crc bs produced} (ht : Timing crc bs produced) (k cap
   refine ⟨hfin.1, (hI.mr hfin.1).2.1, fun i hi hn => ⟨hfin.2 i hi hn, ?_⟩⟩
   exact done_all_handled _ (cfg_wf ht k cap isNil) h i hi hn (hfin.2 i hi hn)
 
-/-- Tie T1: the goroutine/channel skeletons the transition system was written for. -/
-theorem tie_skeletons :
-    Gen.skeleton_fh_Handler_Handle = some ["makechan cap=0", "defer close byteChan",
-      "go handler.RTCMHandler.HandleMessages", "for", "return", "return", "return", "send byteChan"] ∧
-    Gen.skeleton_handler_Handler_HandleMessages = some ["for", "close ch_out", "return", "send ch_out"] ∧
-    Gen.skeleton_pushback_ByteChannel_get = some ["return", "recv bc.byteChan", "return", "return"] ∧
-    Gen.skeleton_appcore_AppCore_HandleMessagesUntilEOF = some ["makechan cap=0", "go fh.Handle", "for",
-      "recv messageChan", "return", "range appCore.Channels", "send appCore.Channels[i]", "return"] := by
-  repeat' constructor
-  all_goals decide
-
 /-! Non-vacuity: the timing "emit everything only after the close" is admissible for every
     stream (so the hypotheses of the theorems are satisfiable), and the initial state is reachable. -/
 example (crc : Bytes → Nat) (bs : Bytes) :
@@ -107,15 +94,5 @@ example (crc : Bytes → Nat) (bs : Bytes) :
     cases b <;> cases b' <;> simp_all
 
 example (crc : Bytes → Nat) (bs : Bytes) (p) (k) (cap) (isNil) : Reach (pipeCfg crc bs p k cap isNil) (init Msg) := .init
-
-/-- Tie T1: what `Handle` hands over — single bytes by value, from the read loop itself. -/
-theorem tie_handover :
-    Gen.sent_fh_Handler_Handle = some ["go handler.RTCMHandler.HandleMessages()", "byteChan <- buf[0]"] := by decide
-
-/-- Tie T1 (guards): the conditions and loops of `Handle`. -/
-theorem tie_guards_reader : type_of% Ntrip.Guards.reader := Ntrip.Guards.reader
-
-/-- Tie T1 (guards): the conditions and loops of `HandleMessagesUntilEOF`. -/
-theorem tie_guards_fanout : type_of% Ntrip.Guards.fanout := Ntrip.Guards.fanout
 
 end Ntrip.C09
